@@ -22,58 +22,134 @@ PROP = "c03"
 # --------------------------------------------------------------------------------------------------
 
 
-def _escapes_of(tree) -> List[str]:
-    return [n.text for n in tree.walk() if n.name == "escapable"]
+# Each refused valid query gets exactly ONE kind: its minimal cause, found by cause isolation.
+# 1. candidate features are read off the reference AST (predicates on the input);
+# 2. every feature has a neutralising edit that keeps the query valid (astral name -> `a`, control-character
+#    escape -> \\u0041, `0e1` -> `1`, `!` opening a function argument -> stripped, parentheses opening a
+#    function argument -> unwrapped, a Logical/Nodes call given to a LogicalType parameter -> unwrapped to its
+#    own argument, or the plain query `@.a` where that is not possible);
+# 3. with ALL features neutralised the query must compile (otherwise the cause is unknown: unclassified);
+# 4. the kind is the first feature (fixed order) that, left in place ALONE, still makes compile() refuse.
+FEATURES = [
+    "astral-shorthand-name",
+    "control-char-escape",
+    "number-0e1",
+    "not-opening-function-argument",
+    "paren-opening-function-argument",
+    "logicaltype-call-as-logicaltype-argument",
+    "nodestype-call-as-logicaltype-argument",
+]
 
 
-def causes(q: str) -> List[str]:
-    """All known refusal causes visible in q (each a predicate on q's reference AST), in a fixed order."""
+def feature_edits(q: str) -> dict:
+    """feature -> [(start, end, replacement)] for the features present in q"""
     tree = rfcvalid.parse_tree(q)
-    if tree is None:  # cannot happen for a string the oracle called valid
-        return []
-    out: List[str] = []
-    names = [n.text for n in tree.walk() if n.name == "member-name-shorthand"]
-    if any(any(ord(c) > 0xFFFF for c in nm) for nm in names):
-        out.append("astral-shorthand-name")
-    for e in _escapes_of(tree):
-        if e[0] == "u" and len(e) == 5 and int(e[1:5], 16) < 0x20:
-            out.append("control-char-escape")
-            break
-    numbers = [n.text for n in tree.walk() if n.name == "number"]
-    if any(re.match(r"^0[eE]", x) for x in numbers):
-        out.append("number-0e1")
-    args = [n for n in tree.walk() if n.name == "function-argument"]
-    if any(a.text[:1] == "!" for a in args):
-        out.append("not-opening-function-argument")
-    if any(a.text[:1] == "(" for a in args):
-        out.append("paren-opening-function-argument")
+    edits: dict = {}
+    if tree is None:
+        return edits
     reg = qenum.registry_for(q)
-    typed = set()
-    for fe in (n for n in tree.walk() if n.name == "function-expr"):
-        fname = fe.child("function-name").text
-        sig = reg.get(fname)
-        if not sig:
-            continue
-        fargs = [k for k in fe.kids if k.name == "function-argument"]
-        for a, p in zip(fargs, sig[0]):
-            k = a.kids[0]
-            if p == rfcvalid.LOGICAL and k.name == "function-expr":
-                inner = reg.get(k.child("function-name").text)
-                if inner and inner[1] == rfcvalid.LOGICAL:
-                    typed.add("logicaltype-call-as-logicaltype-argument")
-                if inner and inner[1] == rfcvalid.NODES:
-                    typed.add("nodestype-call-as-logicaltype-argument")
-    out.extend(sorted(typed))
+    for n in tree.walk():
+        nm = n.name
+        if nm == "member-name-shorthand":
+            if any(ord(c) > 0xFFFF for c in n.text):
+                edits.setdefault("astral-shorthand-name", []).append((n.start, n.end, "a"))
+        elif nm == "escapable":
+            e = n.text
+            if e[0] == "u" and len(e) == 5 and int(e[1:5], 16) < 0x20:
+                edits.setdefault("control-char-escape", []).append((n.start, n.end, "u0041"))
+        elif nm == "number":
+            if re.match(r"^0[eE]", n.text):
+                edits.setdefault("number-0e1", []).append((n.start, n.end, "1"))
+        elif nm == "function-argument":
+            if n.text[:1] in ("!", "("):
+                # the basic expression that opens the argument: strip its `!` / unwrap its parentheses
+                first = next((k for k in n.walk() if k.name in ("paren-expr", "test-expr") and k.start == n.start), None)
+                if first is not None and first.name == "paren-expr":
+                    inner = first.child("logical-expr")
+                    open_pos = first.start + first.text.index("(")
+                    if first.text[0] == "!":  # `!( .. )` carries both features
+                        edits.setdefault("not-opening-function-argument", []).append((first.start, open_pos, ""))
+                    edits.setdefault("paren-opening-function-argument", []).extend(
+                        [(open_pos, inner.start, ""), (inner.end, first.end, "")]
+                    )
+                elif first is not None and first.text[0] == "!":
+                    body = first.kids[-1]
+                    edits.setdefault("not-opening-function-argument", []).append((first.start, body.start, ""))
+                else:
+                    key = "not-opening-function-argument" if n.text[0] == "!" else "paren-opening-function-argument"
+                    edits.setdefault(key, []).append((n.start, n.end, "@.a"))
+        elif nm == "function-expr":
+            sig = reg.get(n.child("function-name").text)
+            if not sig:
+                continue
+            fargs = [k for k in n.kids if k.name == "function-argument"]
+            for a, p in zip(fargs, sig[0]):
+                k = a.kids[0]
+                if p == rfcvalid.LOGICAL and k.name == "function-expr":
+                    inner = reg.get(k.child("function-name").text)
+                    iargs = [x for x in k.kids if x.name == "function-argument"]
+                    # neutralise by unwrapping a one-argument call (keeps what is inside), else by `@.a`
+                    if len(iargs) == 1:
+                        ed = [(k.start, iargs[0].start, ""), (iargs[0].end, k.end, "")]
+                    else:
+                        ed = [(a.start, a.end, "@.a")]
+                    if inner and inner[1] == rfcvalid.LOGICAL:
+                        edits.setdefault("logicaltype-call-as-logicaltype-argument", []).extend(ed)
+                    elif inner and inner[1] == rfcvalid.NODES:
+                        edits.setdefault("nodestype-call-as-logicaltype-argument", []).extend(ed)
+    return edits
+
+
+def _apply(q: str, edits: dict, features) -> str:
+    sel = sorted((e for f in features for e in edits[f]), key=lambda e: (e[0], -e[1]))
+    keep = []
+    last_end = -1
+    for st, en, rep in sel:  # outermost edits win
+        if st >= last_end:
+            keep.append((st, en, rep))
+            last_end = en
+    out = q
+    for st, en, rep in reversed(keep):
+        out = out[:st] + rep + out[en:]
     return out
 
 
+def _refused(s: str):
+    """True / False, or None when the variant is not a valid query (inconclusive)"""
+    if rfcvalid.validity(s, qenum.registry_for(s)) != "valid":
+        return None
+    comp, _tag = _run.compiler_for(s)
+    try:
+        comp(s)
+    except BaseException:  # noqa: BLE001
+        return True
+    return False
+
+
+def _neutralise(q: str, keep=None) -> str:
+    """q with every known feature except `keep` neutralised (repeated: an edit may uncover a feature)"""
+    for _ in range(4):
+        edits = feature_edits(q)
+        todo = [f for f in FEATURES if f in edits and f != keep]
+        if not todo:
+            break
+        q2 = _apply(q, edits, todo)
+        if q2 == q:
+            break
+        q = q2
+    return q
+
+
 def classify(q: str) -> str:
-    """Kind of a refused valid query: the known causes present in q joined by '+' (a query exhibiting two
-    causes is its own class, so that fixing one cause does not re-label the survivors)."""
-    cs = causes(q)
-    if not cs:
+    present = [f for f in FEATURES if f in feature_edits(q)]
+    if not present:
         return PROP + "-unclassified"
-    return PROP + "-refuses-" + "+".join(cs)
+    if _refused(_neutralise(q)) is not False:
+        return PROP + "-unclassified"  # still refused (or not valid) without any known feature
+    for f in present:
+        if _refused(_neutralise(q, keep=f)) is True:
+            return "%s-refuses-%s" % (PROP, f)
+    return PROP + "-unclassified"
 
 
 # --------------------------------------------------------------------------------------------------
